@@ -344,6 +344,31 @@ def read_szx(data):
     return s
 
 
+def write_szx(s, compress=True):
+    """Build a .szx file from a decoded-snapshot style dict (input files for snapmod)."""
+    mid = {'48K': 1, '128K': 2, '+2': 3}[s['machine']]
+    out = bytearray(b'ZXST' + bytes((1, 4, mid, 0)))
+
+    def chunk(cid, body):
+        out.extend(cid + struct.pack('<I', len(body)) + body)
+    z = struct.pack('<12H5BI2BH', s['f'] | (s['a'] << 8), s['bc'], s['de'], s['hl'], s['f2'] | (s['a2'] << 8), s['bc2'],
+                    s['de2'], s['hl2'], s['ix'], s['iy'], s['sp'], s['pc'], s['i'], s['r'], s['iff1'], s['iff2'], s['im'],
+                    s['tstates'], 0, 0, s.get('memptr') or 0)
+    chunk(b'Z80R', z)
+    chunk(b'SPCR', bytes((s['border'], s.get('o7ffd', 0), 0, s.get('fe') or 0, 0, 0, 0, 0)))
+    if mid == 1:
+        chunk(b'KEYB', struct.pack('<IB', s.get('issue2', 0), 0))
+    else:
+        chunk(b'AY\x00\x00', bytes((0, s.get('offfd', 0))) + bytes(s.get('ay', [0] * 16)))
+    for bank in sorted(s['banks']):
+        d = s['banks'][bank]
+        if compress:
+            chunk(b'RAMP', struct.pack('<HB', 1, bank) + zlib.compress(d, 6))
+        else:
+            chunk(b'RAMP', struct.pack('<HB', 0, bank) + d)
+    return bytes(out)
+
+
 def read_snapshot(path):
     with open(path, 'rb') as f:
         data = f.read()
